@@ -271,7 +271,7 @@ func (c *Checker) checkCRCEmitters() {
 		n, bad, first := 0, 0, ""
 		for _, s := range pmt14Shapes {
 			for j, pc := range pmt14PidCases(s) {
-				if len(pc.pids) == 0 || pc.name != "all streams" && pc.name != "first stream" {
+				if len(pc.pids) == 0 || pc.name != "all streams" && pc.name != "first stream" && pc.name != "last stream" {
 					continue
 				}
 				_ = j
